@@ -7,6 +7,7 @@ import (
 	"errors"
 	"math"
 	"os"
+	"sync"
 	"time"
 
 	"github.com/maypok86/otter/v2/internal/deque"
@@ -24,6 +25,9 @@ var _ = errors.Is
 
 func implies(a, b bool) bool  { return !a || b }
 func same[T any](a, b T) bool { panic("spec") }
+
+// mutexHeld: the lock flag of a mutex in the sequential model
+func mutexHeld(m *sync.Mutex) bool { panic("spec") }
 func iff(a, b bool) bool      { return a == b }
 
 // abstract node fields (shared with internal/generated/node/verif_contracts.go)
@@ -444,11 +448,15 @@ func estOf[K comparable](s *sketch[K], k K) uint64 {
 
 //@ func (*cache).scheduleDrainBuffers : C01 C03 C12 C20
 //@   var tstar *task[K, V]
-//@   assumed footprint of a maintenance run triggered through the executor (C14 is not applicable); the run itself is (*cache).maintenance, verified below, which keeps the wiring
+//@   mode seq,itf
+//@   note how a run is triggered under concurrency (the drain-status CAS protocol, C14) is not applicable; verified here: what the function does on one goroutine, with the executor running the task at once ([seq]) or not at all ([itf])
+//@   requires cfg(c)
 //@   modifies $MAINT
 //@   ensures [wiring-kept] pre(wired(c)) ==> wired(c)
 //@   ensures [clock-stable] pre(ghost_clockRead()) ==> ghost_clockRead() && ghost_now() == pre(ghost_now())
-//@   ensures [events-outside-the-buffer-untouched] !pre(ghost_buffered(tstar)) ==> tstar.n == pre(tstar.n) && tstar.old == pre(tstar.old) && tstar.writeReason == pre(tstar.writeReason) && tstar.deletionCause == pre(tstar.deletionCause)
+//@   ensures [events-outside-the-buffer-untouched] tstar != nil && !pre(ghost_buffered(tstar)) ==> tstar.n == pre(tstar.n) && tstar.old == pre(tstar.old) && tstar.writeReason == pre(tstar.writeReason) && tstar.deletionCause == pre(tstar.deletionCause)
+//@   ensures @seq [C13:the-eviction-lock-is-handed-back] !pre(mutexHeld(&c.evictionMutex)) ==> !mutexHeld(&c.evictionMutex)
+//@   ensures [C13:no-run-while-one-is-in-progress] pre(c.drainStatus.Load()) >= processingToIdle ==> ghost_calls_maintenance() == pre(ghost_calls_maintenance())
 
 //@ macro ACCESSFX = node::queueType, node::prev, node::next, node::prevExp, node::nextExp, ghost_inWheel(*), ghost_inDeque(*), policy::windowWeightedSize, policy::mainProtectedWeightedSize, policy::hitsInSample, Linked::*, sketch::*, ghost_calls_increment(), []uint64::*
 
@@ -789,11 +797,15 @@ func estOf[K comparable](s *sketch[K], k K) uint64 {
 // policy notification entry points (bodies verified in the C05/C06 block)
 //@ func (*cache).scheduleAfterWrite : C05 C06
 //@   var tstar *task[K, V]
-//@   assumed drain-status protocol (C14 is not applicable); footprint of a possibly triggered maintenance run, which keeps the wiring (see (*cache).maintenance)
+//@   mode seq,itf
+//@   note the drain-status protocol under concurrency (C14) is not applicable; verified here: the sequential content
+//@   requires cfg(c)
 //@   modifies $MAINT
+//@   loop 1: invariant [wiring] cfg(c)
 //@   ensures [wiring-kept] pre(wired(c)) ==> wired(c)
 //@   ensures [clock-stable] pre(ghost_clockRead()) ==> ghost_clockRead() && ghost_now() == pre(ghost_now())
-//@   ensures [events-outside-the-buffer-untouched] !pre(ghost_buffered(tstar)) ==> tstar.n == pre(tstar.n) && tstar.old == pre(tstar.old) && tstar.writeReason == pre(tstar.writeReason) && tstar.deletionCause == pre(tstar.deletionCause)
+//@   ensures [events-outside-the-buffer-untouched] tstar != nil && !pre(ghost_buffered(tstar)) ==> tstar.n == pre(tstar.n) && tstar.old == pre(tstar.old) && tstar.writeReason == pre(tstar.writeReason) && tstar.deletionCause == pre(tstar.deletionCause)
+//@   ensures @seq [C13:the-eviction-lock-is-handed-back] !pre(mutexHeld(&c.evictionMutex)) ==> !mutexHeld(&c.evictionMutex)
 
 //@ func (*cache).performCleanUp : C05 C06 C04 C13
 //@   var tstar *task[K, V]
@@ -803,7 +815,8 @@ func estOf[K comparable](s *sketch[K], k K) uint64 {
 //@   ensures [wiring-kept] wired(c)
 //@   site rescheduleCleanUpIfIncomplete: requires [C05:handed-event-reaches-maintenance] ghost_calls_maintenance() == pre(ghost_calls_maintenance()) + 1 && ghost_last_maintenance_t[K, V]() == t
 //@   ensures [clock-stable] pre(ghost_clockRead()) ==> ghost_clockRead() && ghost_now() == pre(ghost_now())
-//@   ensures [C05:other-events-outside-the-buffer-untouched] tstar != t && !pre(ghost_buffered(tstar)) ==> tstar.n == pre(tstar.n) && tstar.old == pre(tstar.old) && tstar.writeReason == pre(tstar.writeReason) && tstar.deletionCause == pre(tstar.deletionCause)
+//@   ensures [C05:other-events-outside-the-buffer-untouched] tstar != nil && tstar != t && !pre(ghost_buffered(tstar)) ==> tstar.n == pre(tstar.n) && tstar.old == pre(tstar.old) && tstar.writeReason == pre(tstar.writeReason) && tstar.deletionCause == pre(tstar.deletionCause)
+//@   ensures [C13:the-eviction-lock-is-released] !mutexHeld(&c.evictionMutex)
 
 //@ func (*cache).getTask : C05 C06
 //@   counted
@@ -965,6 +978,7 @@ func estOf[K comparable](s *sketch[K], k K) uint64 {
 //@   site rescheduleCleanUpIfIncomplete: requires [C05:reports-the-policy-total-read-under-the-eviction-lock] !c.isWeighted || result == c.evictionPolicy.weightedSize
 //@   ensures [C05:unweighted-cache-reports-zero] !c.isWeighted ==> result == 0 && ghost_calls_maintenance() == pre(ghost_calls_maintenance())
 //@   ensures [wiring-kept] wired(c)
+//@   ensures [C13:the-eviction-lock-is-released] !pre(mutexHeld(&c.evictionMutex)) ==> !mutexHeld(&c.evictionMutex)
 
 //@ func (*cache).GetMaximum : C04
 //@   requires cfg(c)
@@ -972,6 +986,7 @@ func estOf[K comparable](s *sketch[K], k K) uint64 {
 //@   site rescheduleCleanUpIfIncomplete: requires [C04:reports-the-maximum-in-force] result == c.evictionPolicy.maximum && result == pre(c.evictionPolicy.maximum)
 //@   ensures [C07:unbounded-cache-has-no-maximum] !c.withEviction ==> result == math.MaxUint64
 //@   ensures [wiring-kept] wired(c)
+//@   ensures [C13:the-eviction-lock-is-released] !pre(mutexHeld(&c.evictionMutex)) ==> !mutexHeld(&c.evictionMutex)
 
 //@ func (*cache).deleteNodeFromMap : C01 C03 C06 C09 C05 C07
 //@   mode seq,itf
@@ -1198,6 +1213,7 @@ func estOf[K comparable](s *sketch[K], k K) uint64 {
 //@   ensures [C07:unbounded-cache-ignores-it] !c.withEviction ==> ghost_calls_maintenance() == pre(ghost_calls_maintenance()) && ghost_calls_notifyDeletion() == pre(ghost_calls_notifyDeletion())
 //@   ensures [wiring-kept] wired(c)
 //@   ensures [clock-stable] pre(ghost_clockRead()) ==> ghost_clockRead() && ghost_now() == pre(ghost_now())
+//@   ensures [C13:the-eviction-lock-is-released] !pre(mutexHeld(&c.evictionMutex)) ==> !mutexHeld(&c.evictionMutex)
 
 //@ macro CLIMBFX = node::queueType, $LINKFX, ghost_inDeque(*), p.mainProtectedWeightedSize, p.windowWeightedSize, p.mainProtectedMaximum, p.windowMaximum, p.adjustment
 
@@ -1287,6 +1303,7 @@ func estOf[K comparable](s *sketch[K], k K) uint64 {
 //@   requires ghost_hasSize() && ghost_hasState() && wfPolicy(p)
 //@   modifies node::queueType, $LINKFX, ghost_inDeque(*), p.windowWeightedSize
 //@   loop 1: invariant [C07:window-demotion-only] wfPolicy(p) && ghost_hasSize() && ghost_hasState() && p.weightedSize == pre(p.weightedSize)
+//@   site evictFromWindow.return: requires [C04:window-demotion-stops-only-within-the-window-bound-or-at-the-end-of-the-window] p.windowWeightedSize <= p.windowMaximum || n == nil
 //@   ensures [C07:window-overflow-demotes-never-removes] p.weightedSize == pre(p.weightedSize)
 
 //@ func (*policy).evictFromMain : C04 C05 C07 C18
@@ -1301,6 +1318,8 @@ func estOf[K comparable](s *sketch[K], k K) uint64 {
 //@   callback evictNode: ensures [C06:one-notification-per-eviction] $EVDELTA == pre($EVDELTA)
 //@   loop 1: invariant [policy-wf] wfPolicy(p) && ghost_hasSize() && ghost_hasState()
 //@   loop 1: invariant [C06:evictions-notified-one-to-one] $EVDELTA == pre($EVDELTA)
+//@   loop 1: invariant [queue-cursors] (victimQueue == node.InMainProbationQueue || victimQueue == node.InMainProtectedQueue || victimQueue == node.InWindowQueue) && (candidateQueue == node.InMainProbationQueue || candidateQueue == node.InWindowQueue)
+//@   site evictFromMain.return: requires [C04:eviction-stops-only-within-the-bound-or-when-every-queue-is-exhausted] p.weightedSize <= p.maximum || (victim == nil && victimQueue == node.InWindowQueue)
 //@   ensures [C06:evictions-notified-one-to-one] $EVDELTA == pre($EVDELTA)
 //@   ensures [policy-wf-kept] wfPolicy(p)
 
